@@ -48,7 +48,10 @@ ForkTag(h, c, id) ==
       ELSE "")
 
 Violations(e, okR, rec, c2) ==
-  IF e.act # "Submit" THEN If(c2 # cl, Lbl("store_changed_without_update", e.act))
+  IF e.act = "Export"   \* C16 for this client type: classes of store keys that differ after genesis export + re-import
+  THEN {[p |-> "C16", f |-> "state_differs_after_export_import", d |-> rec.info.diff[i]] : i \in DOMAIN rec.info.diff}
+       \cup If(c2 # cl, Lbl("store_changed_without_update", e.act))
+  ELSE IF e.act # "Submit" THEN If(c2 # cl, Lbl("store_changed_without_update", e.act))
   ELSE
   LET id   == e.id
       x    == hs[id]
